@@ -18,7 +18,9 @@
 From Coq Require Import List NArith ZArith Bool String.
 Import ListNotations.
 Require Import PV.Comb.PState PV.Comb.Utf8 PV.Peg.Ast.
+Require Import PV.Iter.Queue PV.Peg.Spec.
 Require Import PV.Meta.Tokens PV.Meta.Unescape PV.Meta.Consume PV.Meta.Spell PV.Meta.Text PV.Meta.LexProofs PV.Meta.Proofs PV.Meta.Top.
+Require Import PV.Meta.PegRules PV.Meta.LexPeg.
 
 (* ---------------------------------------------------------------------------------------------
    THE FULL STATEMENT (pinned; proved modulo the tokenisation half, see C07_partial (6))
@@ -90,6 +92,63 @@ Proof.
   exact reduction.
 Qed.
 
+(* ---------------------------------------------------------------------------------------------
+   THE TOKENISATION HALF, LEXICAL PART: grammar.pest under Peg.Spec ([evals]: the fuelled interpreter returns this
+   result with every sufficiently large fuel) on a text w whose suffix at p is  lexeme ++ rest :
+   every lexical rule of grammar.pest matches exactly the lexeme as Spell.v / Text.v spell it, and produces the
+   token tree tokens_of expects.  [follow P rest]: rest is empty or starts with an ASCII byte outside P.
+   --------------------------------------------------------------------------------------------- *)
+Definition lexes (w : list byte) (a : PState.atom) (em : bool) (r : string) (p : nat) (sg : list str) (res : sres) : Prop :=
+  evals meta_grammar false (fun _ => None) w a em (EIdent (nm r)) p sg res.
+
+Definition C07_lexical_statement : Prop :=
+  forall (w : list byte) (p : nat) (sg : list str) (rest : list byte),
+  (* number = @{ '0'..'9'+ } *)
+  (forall a em ds, ds <> [] -> Forall (fun b => (b < 128)%N /\ digitb b = true) ds -> follow digitb rest -> skipn p w = ds ++ rest ->
+     lexes w a em "number" p sg (SMatch (p + List.length ds) sg (node_if (tok a em) MNumber p (p + List.length ds) []))) /\
+  (* integer = @{ number | "-" ~ "0"* ~ '1'..'9' ~ number? } *)
+  (forall a em z l, spells_int z l -> follow digitb rest -> skipn p w = l ++ rest ->
+     lexes w a em "integer" p sg (SMatch (p + List.length l) sg (node_if (tok a em) MInteger p (p + List.length l) []))) /\
+  (* identifier = @{ !"PUSH" ~ ("_" | alpha) ~ ("_" | alpha_num)* } ,  tag_id *)
+  (forall a em n, ident_ok n = true -> follow ident_char rest -> skipn p w = n ++ rest ->
+     lexes w a em "identifier" p sg (SMatch (p + List.length n) sg (node_if (tok a em) MIdentifier p (p + List.length n) []))) /\
+  (forall a em t, tag_ok t = true -> follow ident_char rest -> skipn p w = 35%N :: t ++ rest ->
+     lexes w a em "tag_id" p sg (SMatch (p + S (List.length t)) sg (node_if (tok a em) MTagId p (p + S (List.length t)) []))) /\
+  (* WHITESPACE / COMMENT: the implicit skipping of a non-atomic rule consumes exactly a gap (blanks, newlines,
+     nested block comments, line comments) when what follows is no blank and no comment opener *)
+  (forall em g, gap g -> gap_end rest -> skipn p w = g ++ rest ->
+     skips meta_grammar false (fun _ => None) w NonAtomic em p sg (SMatch (p + List.length g) sg [])) /\
+  (* escape: the seven one-letter escapes, \xHH, \u{2-6 hex digits} *)
+  (forall em esc, escape_text esc -> skipn p w = esc ++ rest -> lexes w Atomic em "escape" p sg (SMatch (p + List.length esc) sg [])) /\
+  (* string = ${ quote ~ inner_str ~ quote },  character = ${ single_quote ~ inner_chr ~ single_quote } *)
+  (forall a cs ew, spells_string 34%N cs ew -> skipn p w = quoted 34%N ew ++ rest ->
+     lexes w a true "string" p sg (SMatch (p + List.length (quoted 34%N ew)) sg [string_node p ew])) /\
+  (forall a c e, spells_char 39%N c e -> skipn p w = quoted 39%N e ++ rest ->
+     lexes w a true "character" p sg (SMatch (p + List.length (quoted 39%N e)) sg [char_node p e])) /\
+  (* insensitive_string = { "^" ~ string } and range = { character ~ range_operator ~ character }, gaps inside *)
+  (forall cs ew g, spells_string 34%N cs ew -> gap g -> skipn p w = 94%N :: g ++ quoted 34%N ew ++ rest ->
+     lexes w NonAtomic true "insensitive_string" p sg
+       (SMatch (p + 1 + List.length g + List.length (quoted 34%N ew)) sg
+          [Node (mid MInsensitiveString) None p (p + 1 + List.length g + List.length (quoted 34%N ew)) [string_node (p + 1 + List.length g) ew]])) /\
+  (forall lo hi e1 e2 g1 g2, spells_char 39%N lo e1 -> spells_char 39%N hi e2 -> gap g1 -> gap g2 ->
+     skipn p w = quoted 39%N e1 ++ g1 ++ [46%N; 46%N] ++ g2 ++ quoted 39%N e2 ++ rest ->
+     let p1 := p + List.length (quoted 39%N e1) + List.length g1 in
+     let p2 := p1 + 2 + List.length g2 in
+     lexes w NonAtomic true "range" p sg
+       (SMatch (p2 + List.length (quoted 39%N e2)) sg
+          [Node (mid MRange) None p (p2 + List.length (quoted 39%N e2))
+             [char_node p e1; Node (mid MRangeOperator) None p1 (p1 + 2) []; char_node p2 e2]])).
+
+Theorem C07_lexical : C07_lexical_statement.
+Proof.
+  intros w p sg rest.
+  split; [intros a em ds; apply lex_number|]. split; [intros a em z l; apply lex_integer|].
+  split; [intros a em n; apply lex_identifier|]. split; [intros a em t; apply lex_tag_id|].
+  split; [intros em g; apply gap_lex|]. split; [intros em esc; apply escape_lex|].
+  split; [intros a cs ew; apply lex_string|]. split; [intros a c e; apply lex_character|].
+  split; [intros cs ew g; apply lex_insens|]. intros lo hi e1 e2 g1 g2. apply lex_range.
+Qed.
+
 Theorem C07_reduction : C07_tokenisation_statement -> C07_statement.
 Proof. intros T extras G text S. apply (reduction extras G text); [intros cg P V F; exact (T extras cg text P V F)|exact S]. Qed.
 
@@ -158,6 +217,7 @@ Example C07_ex_errors :
 Proof. vm_compute. repeat split. Qed.
 
 Print Assumptions C07_partial.
+Print Assumptions C07_lexical.
 Print Assumptions C07_reduction.
 Print Assumptions C07_insens_space_refuted.
 Print Assumptions C07_nested_leading_bar_refuted.
